@@ -121,6 +121,17 @@ def _exec_case(case):
             out.klass.append(f"frozen-by-{how}")
         if isinstance(r, Raised):
             return out.fail(f"freeze-raises:{r.type}", r.text)
+        if case["seed"] % 5 >= 3:
+            # ... and the model that is trained further is a deep copy (or an unpickled copy) of the frozen one
+            import copy
+            import pickle
+
+            # (torch itself cannot pickle float8 tensors in this build: those models are deep-copied)
+            cp = cut(lambda: copy.deepcopy(model) if case["seed"] % 5 == 3 or "float8" in case["wq"] else pickle.loads(pickle.dumps(model)))
+            if isinstance(cp, Raised):
+                return out.fail(f"frozen-copy-raises:{cp.type}", cp.text)
+            model = cp
+            out.klass.append("frozen-then-copied")
         qm = model[0]
     if case["seed"] % 3 == 0:
         # fine-tuning with the model in eval mode (batch-norm / dropout frozen) is legal: gradients do not depend on it
